@@ -65,7 +65,7 @@ Definition res_val {A} (f : A -> val) (r : res A) : val :=
   | VErr => VE "ValueError"
   | TErr => VE "TypeError"
   | Abort => VE "NetmaskValueError"
-  | Crash k => VE ("Crash:" ++ k)%string
+  | Crash k => VE k
   end.
 
 (** * List helpers *)
